@@ -255,8 +255,11 @@ fn run(plan: &Plan, dir: &str, rep: &mut RunReport) -> Result<Option<(String, St
                 what = format!("step {n} mutating batch through the read-only endpoint (refused {})", r.status);
             }
             Step::BadResultRef { ops } => {
-                let e = reference_batch_dry(&reference_clone(&reference, &sh)?, &sh, ops)?;
-                let mut qs = e;
+                // the reference runs the same queries and aborts at the same place (behind the last one), so that what
+                // a rollback may legitimately leave different (order of an element's properties and edges, which freed
+                // id is handed out next) is the same on both sides
+                let e = reference_batch_tail(&mut reference, &mut sh, ops, true);
+                let mut qs = e.queries;
                 qs.push(QueryType::Remove(agdb::RemoveQuery(QueryIds::Ids(vec![QueryId::Alias(":57".into())]))));
                 let r = rt.block_on(ctx.server.call("POST", &format!("{path}/exec_mut"), Some(&ctx.tokens[0]), Some(serde_json::to_value(&qs).unwrap())));
                 rep.count("fault.abort.result_reference_out_of_bounds", 1);
@@ -396,16 +399,6 @@ fn first_diff(a: &[(String, Value)], b: &[(String, Value)]) -> String {
 
 /// A throw-away copy of the reference (replaying is cheaper than cloning: re-run is not possible, so rebuild from a dump is overkill) —
 /// the dry batches only need plausible concrete queries, so they are built on an empty database with the current slot table.
-fn reference_clone(_reference: &DbMemory, _sh: &Shadow) -> Result<DbMemory, String> {
-    DbMemory::new("/sim/c25-dry").map_err(|e| e.description)
-}
-
-fn reference_batch_dry(_db: &DbMemory, sh: &Shadow, ops: &[Op]) -> Result<Vec<QueryType>, String> {
-    let mut s2 = sh.clone();
-    let mut tmp = DbMemory::new("/sim/c25-dry2").map_err(|e| e.description)?;
-    Ok(reference_batch(&mut tmp, &mut s2, ops).queries)
-}
-
 pub(crate) fn exec(plan: &Plan, trials: &mut Trials) -> RunReport {
     let mut rep = RunReport::default();
     let mut h = Fnv::new();
